@@ -17,9 +17,18 @@ var pumpCountsSmall = []int{2, 3, 5, 8, 9, 16, 17, 33, 64, 65, 129, 256, 257}
 // boundaryChars: one or two characters on each side of every boundary the code (or any
 // plausible rewrite of it) distinguishes: C0 controls, the ASCII classes, Latin-1,
 // the 0xFF/0x100 table boundary, general punctuation, ideographic space, the BMP
-// end (0xFFFD..0xFFFF), the first astral characters and the last code point.
+// end (0xFFFD..0xFFFF), the first astral characters and the last code point; init() adds aliases modulo 2^8 / 2^16.
 var boundaryChars = []rune{0x0, 0x1, 0x8, '\t', '\n', 0xb, 0xc, '\r', 0x1f, ' ', '!', '"', '#', '\'', '*', '+', ',', '-', '.', '/', '0', '9', ':', ';', '<', '=', '>', '?', '@', 'A', 'E', 'Z', '[', '\\', ']', '^', '_', '`', 'a', 'e', 'z', '{', '|', '}', '~',
 	0x7f, 0x80, 0x9f, 0xa0, 0xbf, 0xc0, 0xd7, 0xf7, 0xff, 0x100, 0x101, 0x17f, 0x2ff, 0x300, 0x3a9, 0x42f, 0x2000, 0x2028, 0x2029, 0x201c, 0x201d, 0x2192, 0x3000, 0x4e2d, 0xd7ff, 0xe000, 0xfeff, 0xfffc, 0xfffd, 0xfffe, 0xffff, 0x10000, 0x1f600, 0xe0001, 0x10ffff}
+
+// aliases: characters that equal a syntactically important ASCII character modulo 2^8 or 2^16
+// (what a narrowing conversion or a table index modulo the table size would confuse them with)
+func init() {
+	for _, c := range []rune{'<', '=', '>', '!', '{', '}', '/', '*', '"', '\'', ',', 'a', '0', ' ', '\n', '-', '.', '#', ';'} {
+		boundaryChars = append(boundaryChars, 0x100+c, 0x10000+c)
+	}
+	boundaryChars = append(boundaryChars, 0x2000+'=', 0x20000+'<', 0x100000+'{')
+}
 
 func pumped(pattern string, k int) string { return strings.Repeat(pattern, k) }
 
@@ -37,6 +46,10 @@ func contextByIndex(alpha []rune, n int, i int64) (string, string) {
 // widthCounts: sizes for "width pumps" - families whose k-th member has k DISTINCT parts (k different
 // variable names, list elements, separators, registered symbols, call arguments), as opposed to one
 // short pattern repeated k times. Around the usual thresholds of small-collection special cases.
+// hugeCounts: sizes next to the 16-bit boundary, for a handful of patterns per family
+// (a count, offset or coordinate kept in a narrow integer wraps here)
+var hugeCounts = []int{65535, 65536, 65537}
+
 var widthCounts = []int{4, 7, 8, 9, 10, 15, 16, 17, 18, 31, 32, 33, 63, 64, 65, 100, 129}
 var widthCountsSmall = []int{8, 9, 10, 16, 17, 33, 65}
 
